@@ -87,6 +87,32 @@ Theorem C07_recorded_error_genuine : forall c s, wf_cfg c = true -> current c = 
 Proof. exact T_recorded_error. Qed.
 Print Assumptions C07_recorded_error_genuine.
 
+(* "an error recorded earlier": once an error is recorded no step of any goroutine or API call
+   changes it *)
+Theorem C07_recorded_error_sticky : forall c l s s' o, wf_cfg c = true -> current c = true -> reach c s ->
+  step c l s = Some (s', o) -> s_err s <> 0%Z -> s_err s' = s_err s.
+Proof. exact T_recorded_error_sticky. Qed.
+Print Assumptions C07_recorded_error_sticky.
+
+(* "complete" in C07_err_nil_only_complete means: up to the first item of the file that reports
+   io.EOF.  If no data block's decoder and no read before the end of the list reports io.EOF
+   ([no_eof_item]; an assumption about decode_data.go/zlib that the harness checks per case: after
+   a bad block Err must be that block's error), nil means the objects of EVERY block were delivered *)
+Theorem C07_err_nil_every_block : forall c s, wf_cfg c = true -> current c = true -> reach c s ->
+  c_hdr_err c <> eEOF -> no_eof_item (c_inp c) = true -> err_value s = 0%Z ->
+  (s_err s = eEOF /\ delivered s = all_objs (c_inp c)) \/
+  (s_err s = 0%Z /\ closed s = false /\ pcancelled s = false).
+Proof. exact T_err_nil_every_block. Qed.
+Print Assumptions C07_err_nil_every_block.
+
+(* without that assumption the statement with "every block" is FALSE of the model: a block whose
+   decoder reports io.EOF ends the scan with Err() = nil and the later blocks undelivered *)
+Example C07_err_nil_every_block_needs_no_eof :
+  let c := cfg_now 2 [IBlock [1%Z]; IBad eEOF; IBlock [2%Z]] in
+  let s := fst (scan_all c 100 10 (init c)) in
+  wf_cfg c = true /\ err_value s = 0%Z /\ delivered s = [1%Z] /\ all_objs (c_inp c) = [1%Z; 2%Z].
+Proof. vm_compute. repeat split. Qed.
+
 (* a failed Start (empty or truncated input, unknown first block, unsupported feature): no goroutine
    exists, so Close has nothing to wait for ([all_done]), and the recorded start error is and stays
    the scanner's error whatever is called afterwards (Close, cancel, further Scan/Header calls do
@@ -96,6 +122,20 @@ Theorem C07_start_error_wins : forall c s, wf_cfg c = true -> current c = true -
   s_err s = c_hdr_err c /\ is_err (s_err s) = true /\ all_done s = true.
 Proof. exact T_start_error_wins. Qed.
 Print Assumptions C07_start_error_wins.
+
+(* ENVIRONMENT ASSUMPTION of section 4 and of C02_no_deadlock / C02_next_returns: every call of the
+   underlying io.Reader.Read, of Decode and of the user's Filter* callbacks returns (the reader's read
+   step and the worker's decode step are always enabled in the model).  It is needed: in the
+   reachable state below Close is waiting and the ONLY step any goroutine can take is the reader's
+   readFileBlock, so with a reader that blocks forever in Read (a pipe nobody writes to) Close does
+   not return.  The real code behaves so (decode.go Close = cancel(); wg.Wait(); replay: Close still
+   blocked after 3 s, returns once the Read returns): known finding "close-while-read-blocked". *)
+Theorem C07_close_waits_for_read :
+  c_pc close_in_read_state = CClose /\ r_pc close_in_read_state = RRead /\ cancelled close_in_read_state = true /\
+  step (cfg_now 1 blocks5) LCo close_in_read_state = None /\
+  forall l s' o, is_progress l = true -> step (cfg_now 1 blocks5) l close_in_read_state = Some (s', o) -> l = LRd false.
+Proof. exact close_waits_for_read. Qed.
+Print Assumptions C07_close_waits_for_read.
 
 (* ---- 4. all goroutines terminate ---- *)
 (* [mu] = 3*rm(reader pc) + sum over workers (2*|input queue| + pc weight) + sm(serializer pc).
@@ -177,9 +217,12 @@ Theorem C07_xml_err_nil_only_complete : forall objs h,
 Proof. exact xml_err_nil_only_complete. Qed.
 Print Assumptions C07_xml_err_nil_only_complete.
 
-(* "without consuming the rest of the input" for the XML scanner, at token granularity: however a
-   cancellation from another goroutine interleaves with the Scan loop (the context is tested before
-   every token), at most one further token is read after the context is cancelled *)
+(* "without consuming the rest of the input" for the XML scanner, at the granularity of TOP-LEVEL
+   tokens: however a cancellation from another goroutine interleaves with the Scan loop (the
+   context is tested before every decoder.Token()), at most one further top-level token is read
+   after the context is cancelled; if that token starts an object element, Token() is followed by
+   DecodeElement of that WHOLE element (one [XObj]/[XBad] step of the machine, arbitrarily many
+   bytes): the bound is "one more top-level token or one more whole object", not a byte bound *)
 Theorem C07_xml_bounded_read_ahead : forall sched toks, xt_tac (fst (xtrun false sched (xtinit toks))) <= 1.
 Proof. exact xml_bounded_read_ahead. Qed.
 Print Assumptions C07_xml_bounded_read_ahead.
@@ -193,6 +236,32 @@ Theorem C07_xml_bounded_read_ahead_percall_refuted :
 Proof. exact xml_bounded_read_ahead_percall_refuted. Qed.
 Print Assumptions C07_xml_bounded_read_ahead_percall_refuted.
 
-(* non-vacuity: a reachable cancelled state of the repaired model with one read after the cancel *)
+(* the token machine under concurrent cancellation (XBad = an element whose decoding fails) *)
+Theorem C07_xml_token_prefix : forall toks sched, xt_wf toks = true ->
+  exists t, xt_delivered (fst (xtrun false sched (xtinit toks))) ++ t = xt_expected toks.
+Proof. exact xml_token_prefix. Qed.
+Print Assumptions C07_xml_token_prefix.
+
+Theorem C07_xml_token_err_nil_only_complete : forall toks sched, xt_wf toks = true ->
+  let x := fst (xtrun false sched (xtinit toks)) in
+  xt_err_value x = 0%Z ->
+  (xt_err x = eEOF /\ xt_final toks = eEOF /\ xt_delivered x = xt_expected toks) \/
+  (xt_err x = 0%Z /\ xt_closed x = false /\ xt_ctx x = false).
+Proof. exact xml_token_err_nil_only_complete. Qed.
+Print Assumptions C07_xml_token_err_nil_only_complete.
+
+Theorem C07_xml_token_scan_after_stop : forall x x1 o1 x2 o2, xt_ctx x = true ->
+  xtstep false (XLCall CScan) x = Some (x1, o1) ->
+  (o1 = [OScan false 0%Z] /\ xt_pc x1 = XIdle) \/
+  (o1 = [] /\ (xtstep false XLStep x1 = Some (x2, o2) -> o2 = [OScan false 0%Z] /\ xt_pc x2 = XIdle)).
+Proof. exact xml_token_scan_after_stop. Qed.
+Print Assumptions C07_xml_token_scan_after_stop.
+
+(* tightness of C07_bounded_read_ahead: one read after the cancel is reachable *)
+Example C07_rac_one_reachable :
+  rac (fst (run (cfg_now 1 blocks5) [LApi CScan; LRd false; LApi CCancel3; LRd false] (init (cfg_now 1 blocks5)))) = 1.
+Proof. vm_compute. reflexivity. Qed.
+
+(* the two loop conditions on the Close-first schedule: repaired 0 reads after the cancel, original 6 *)
 Example C07_witness_rac_now : rac_and = 0 /\ rac_or = 6.
 Proof. vm_compute. split; reflexivity. Qed.
